@@ -1135,7 +1135,12 @@ Proof.
     set (h3 := set_expired (put_sess h1 n s1) (nrem n (h_expired (put_sess h1 n s1)))) in *.
     assert (W4 : WFg xr none1 (set_clients h3 (nadd n (h_clients h3)))).
     { apply wf_set_clients; [exact W3|]. intros x Hx. apply in_nadd in Hx as [->|Hx]; [eexists; exact Hs2|apply (wf_clients _ _ _ W3 x Hx)]. }
-    apply (wf_attach_conn _ _ _ c _ n s1); auto.
+    assert (W5 : WFg xr none1 (set_conns (set_clients h3 (nadd n (h_clients h3)))
+                  (aset (h_conns (set_clients h3 (nadd n (h_clients h3)))) c (mkconn (c_addr cn) (Some n) false)))).
+    { apply (wf_attach_conn _ _ _ c _ n s1); auto. }
+    destruct (queue_closes s); [|exact W5].
+    match goal with |- context [close_conn ?hh c] => destruct (close_conn hh c) as [h6 o6] eqn:H6 end. cbn [fst].
+    rewrite (fst_eq _ _ _ H6). now apply wf_close_conn.
 Qed.
 
 (* ------------------------------------------------------------------ joining *)
